@@ -47,6 +47,22 @@ Pack(f) ==
       bytes |-> [j \in 1..NY(f) |-> <<col.b[j]>> \o rows[j].b],
       recon |-> [j \in 1..NY(f) |-> <<col.r[j]>> \o rows[j].r]]
 
+\* the same packing for a given exponent nexp >= 6, on doubled values (so that a
+\* step of one half unit, nexp = 6, is still an integer): f2 = 2 * field
+PackWith(f2, nexp) ==
+  LET S == Pow2(nexp - 6)           \* half-units per quantisation step
+      col == PackLane([j \in 1..NY(f2) |-> f2[j][1]], 1, f2[1][1], S, [b |-> <<>>, r |-> <<>>])
+      rows == [j \in 1..NY(f2) |->
+                 PackLane([i \in 1..(NX(f2) - 1) |-> f2[j][i + 1]], 1, col.r[j], S, [b |-> <<>>, r |-> <<>>])]
+  IN [nexp |-> nexp, step |-> S, var1 |-> f2[1][1],
+      bytes |-> [j \in 1..NY(f2) |-> <<col.b[j]>> \o rows[j].b],
+      recon |-> [j \in 1..NY(f2) |-> <<col.r[j]>> \o rows[j].r]]
+Doubled(f) == [j \in 1..NY(f) |-> [i \in 1..NX(f) |-> 2 * f[j][i]]]
+\* the exponents a float32 implementation may record for RMAX = r: the exact one,
+\* or one less when r is an exact power of two (LOG(r)/LOG(2) rounds just below
+\* the integer)
+ExpAdmissible(r, e) == e = NExp(r) \/ (r = Pow2(NExp(r) - 1) /\ e = NExp(r) - 1)
+
 RECURSIVE SumSeqA(_)
 SumSeqA(s) == IF Len(s) = 0 THEN 0 ELSE Head(s) + SumSeqA(Tail(s))
 ByteSum(p) == SumSeqA([j \in 1..Len(p.bytes) |-> SumSeqA(p.bytes[j])])
